@@ -330,6 +330,19 @@ Fixpoint switch (reg : registry) (m : list (str * rty)) (ct : str) : path :=
   | (k, t) :: rest => if str_eqb ct (lower_s k) then switch_path reg t else switch reg rest ct
   end.
 
+(* _raw_body_accessor(content_types, python_type): text/* -> response.text, binary media -> response.content *)
+Definition raw_accessor (cs : list centry) (t : rty) : option path :=
+  match cs with
+  | [] => None
+  | _ => if negb (mem_str (show t) raw_body_types) then None
+         else if forallb (fun e => prefixb p_text (c_media e)) cs
+              then (if str_eqb (show t) s_bytes then None else Some PText)
+         else if forallb (fun e => is_binary_media (c_media e)) cs
+              then (if str_eqb (show t) s_str then None else Some PContent)
+         else None
+  end.
+Definition pc_of (o : cop) : list centry := match cprimary o with Some r => cr_content r | None => [] end.
+
 (* _is_ndjson_stream(strategy): the primary response's stream_format is "ndjson" and it has no event-stream content *)
 Definition is_ndjson_resp (r : cresp) : bool :=
   opt_eqb str_eqb (stream_format_of r) (Some s_fmt_ndjson)
@@ -349,14 +362,15 @@ Definition stream_path (reg : registry) (nd : bool) (s : strategy) : path :=
   else PStreamSse.
 
 (* _write_strategy_based_return *)
-Definition strategy_path (reg : registry) (nd : bool) (s : strategy) (ct : str) : path :=
+Definition strategy_path (reg : registry) (nd : bool) (pc : list centry) (s : strategy) (ct : str) : path :=
   if st_streaming s then stream_path reg nd s
-  else if prefixb (s_Union ++ s_lb) (show (st_ret s)) then
+  else match raw_accessor pc (st_ret s) with Some p => p | None =>
+  if prefixb (s_Union ++ s_lb) (show (st_ret s)) then
     match st_mapping s with
     | Some m => switch reg m ct
     | None => PGenError     (* try/except union chain: never produced by resolve (it always sets the mapping) *)
     end
-  else json_path reg (st_ret s).
+  else json_path reg (st_ret s) end.
 
 Definition is_none_ret (s : strategy) : bool := str_eqb (show (st_ret s)) s_None.
 
@@ -380,7 +394,7 @@ Definition secondary_path (reg : registry) (nd : bool) (s : strategy) (ct : str)
   else
   match handler_schema (cr_content r) with
   | None => PNone
-  | Some e => json_path reg (c_type e)
+  | Some e => match raw_accessor (cr_content r) (c_type e) with Some p => p | None => json_path reg (c_type e) end
   end.
 
 Definition cothers (o : cop) : cop :=
@@ -400,7 +414,7 @@ Definition is_strategy_resp (o : cop) (r : cresp) : bool :=
 Definition handle (reg : registry) (o : cop) (st : N) (ct : str) : path :=
   let s := resolve o in
   let nd := nd_of o in
-  let prim_path := if is_none_ret s then PNone else strategy_path reg nd s ct in
+  let prim_path := if is_none_ret s then PNone else strategy_path reg nd (pc_of o) s ct in
   (* `case _:` — a default response with content returns only under `if 200 <= status < 300:` *)
   let default_branch :=
     if default_returns (map to_resp o) && in_range default_success_lo default_success_hi st then prim_path else PRaiseHTTP in
@@ -424,16 +438,17 @@ Definition handle (reg : registry) (o : cop) (st : N) (ct : str) : path :=
 
 (* structure_from_dict is imported by every branch that renders it: the primary/default strategy branch, the
    entries of a content-type switch, and every secondary 2xx branch (numeric or the "2XX" range) *)
-Definition strategy_registers (reg : registry) (nd : bool) (s : strategy) : bool :=
+Definition strategy_registers (reg : registry) (nd : bool) (pc : list centry) (s : strategy) : bool :=
   negb (is_none_ret s)
   && if st_streaming s then match stream_path reg nd s with PStreamNdjson true => true | _ => false end
-     else if prefixb (s_Union ++ s_lb) (show (st_ret s)) then
+     else match raw_accessor pc (st_ret s) with Some _ => false | None =>
+     if prefixb (s_Union ++ s_lb) (show (st_ret s)) then
        match st_mapping s with
        | Some m => existsb (fun kt => negb (str_eqb (show (snd kt)) s_bytes) && negb (str_eqb (show (snd kt)) s_str)
                                       && should_use_cattrs reg (show (snd kt))) m
        | None => false
        end
-     else should_use_cattrs reg (show (st_ret s)).
+     else should_use_cattrs reg (show (st_ret s)) end.
 Definition emits_strategy (o : cop) : bool :=
   match cprocessed o with Some _ => true | None => false end
   || match wildcard_resp o with Some w => is_strategy_resp o w | None => false end
@@ -444,9 +459,12 @@ Definition is_secondary_2xx (o : cop) (r : cresp) : bool :=
   | c => is_wildcard_2xx c && negb (is_strategy_resp o r)
   end.
 Definition secondary_registers (reg : registry) (r : cresp) : bool :=
-  match handler_schema (cr_content r) with Some e => should_use_cattrs reg (show (c_type e)) | None => false end.
+  match handler_schema (cr_content r) with
+  | Some e => match raw_accessor (cr_content r) (c_type e) with Some _ => false | None => should_use_cattrs reg (show (c_type e)) end
+  | None => false
+  end.
 Definition registers_cattrs (reg : registry) (o : cop) : bool :=
-  (emits_strategy o || st_streaming (resolve o) && existsb (fun r => is_secondary_2xx o r && match cr_content r with [] => false | _ => true end) (cothers o)) && strategy_registers reg (nd_of o) (resolve o)
+  (emits_strategy o || st_streaming (resolve o) && existsb (fun r => is_secondary_2xx o r && match cr_content r with [] => false | _ => true end) (cothers o)) && strategy_registers reg (nd_of o) (pc_of o) (resolve o)
   || negb (st_streaming (resolve o)) && existsb (fun r => is_secondary_2xx o r && secondary_registers reg r) (cothers o).
 Definition module_has_cattrs (reg : registry) (ops : list cop) : bool := existsb (registers_cattrs reg) ops.
 
@@ -586,7 +604,15 @@ Definition guard_F05c (d : dcase) : bool :=
         negb picked_other
         && (single || collapsed || negb (is_primary_case d)
             || negb (mem_str (show (ctype_to_python e)) [s_str; s_bytes]))
-      else negb (single || collapsed || negb (is_primary_case d))
+      else
+        let raw := if is_primary_case d then raw_accessor (cr_content r) (st_ret (resolve (the_cop d)))
+                   else match handler_schema (cr_content r) with
+                        | Some h => raw_accessor (cr_content r) (c_type h) | None => None end in
+        match raw with
+        | Some PText => prefixb p_text (c_media e)           (* rendered `return response.text` *)
+        | Some PContent => is_binary_media (c_media e)       (* rendered `return response.content` *)
+        | _ => is_primary_case d && negb (single || collapsed)   (* otherwise only a Content-Type switch delivers text/bytes *)
+        end
   end.
 (* F05f: record streams that are not read by a record parser: json-seq / multipart (SSE parser), or an ndjson stream
    for which the ndjson rendering is not reached (e.g. the primary's items are bytes) *)
